@@ -52,7 +52,7 @@ def load_known():
     prop = os.path.join(ROOT, "findings", "genesis_known.json")
     if os.environ.get("VERIF_C12_PROPOSED") == "1" and os.path.exists(prop):
         have = {k.get("id") for k in known.get("findings", []) if k.get("property") == "C12"}
-        extra = [k for k in json.load(open(prop))["findings"] if k["id"] not in have]
+        extra = [k for k in json.load(open(prop))["findings"] if k["id"] not in have and not k.get("status")]
         known = dict(known, findings=list(known.get("findings", [])) + extra)
     return known
 
@@ -311,6 +311,15 @@ class GenesisCheck:
                     if e.get("accepted"):
                         by_driver |= {m for m, n in e["res"]["nobj"].items() if n > 0 and m != "token"}
         by_driver = sorted(by_driver)
+        diverged = 0
+        with open(allf) as f:
+            for line in f:
+                if '"name":"Continuation"' in line[:300] and '"results_equal":false' in line:
+                    diverged += 1
+        if diverged:
+            log(f"[trace] {diverged} continuations ended early because transaction results diverged from the source "
+                f"(app-hash dependent choices, state outside the irismod genesis such as the ERC20 ledger); durable "
+                f"answers were equal up to that block — diagnostic, not a verdict")
         log(f"[coverage] modules with durable objects in some round trip: {nonempty} (from recorded drivers: {by_driver}; "
             f"the native token alone does not count); not exercised: {empty}")
         samples = []
@@ -327,7 +336,8 @@ class GenesisCheck:
         cov.update({"states": max(1, mc["states"]), "transitions": max(1, mc["transitions"]), "mc_configs": mc["configs"],
                     "exhaustive": bool(mc["configs"]), "planted_defects_found": defects,
                     "traces_validated_against_impl": ntr, "events_validated": res["lines"], "round_trips": nrt,
-                    "continuations": ex_.get("continuation", 0), "recordings": len(recs),
+                    "continuations": ex_.get("continuation", 0), "continuations_ended_by_tx_divergence": diverged,
+                    "recordings": len(recs),
                     "recorded_drivers": sorted({os.path.basename(r).split("-")[1] for r in recs}),
                     "recording_drivers_failed": [b for b, _ in failed],
                     "modules_exercised": nonempty, "modules_exercised_by_recorded_drivers": by_driver,
@@ -377,7 +387,8 @@ TEXT = {"C12": dict(
          "invariants run by the harness), exported again (canonical JSON fixpoint per irismod module) and every durable "
          "object of the source is queried through the modules' gRPC query servers on both chains (zero-height answers "
          "compared modulo ZeroHeight); as-is imports then execute the remaining recorded blocks and are compared with "
-         "the source again. TLC evaluates the clauses on every logged event.",
+         "the source after every block (the continuation ends at the first differing answer — a clause failure — or, "
+         "without verdict, when transaction results diverge). TLC evaluates the clauses on every logged event.",
     note="Trusted: TLC, Go toolchain, the harness' canonical JSON and query enumeration. Coverage is what the recorded "
          "drivers reach: modules without durable objects in any recording are reported as not exercised (evidence "
          "modules_not_exercised) and the check is inconclusive only if no module was exercised. Generated random "
